@@ -133,6 +133,34 @@ def rule_r2(prog, res) -> None:
         res.ok("C16.R2", res.site(rs, "seed"), "the stored seed only changes when a new seed is given")
     else:
         res.violation("C16.R2", rs, rs.node, "reseed() without argument changes the stored seed", key_extra="reseed-changes-seed")
+    # the argument-less call (what the reader issues at the start of every pass) leaves the stored seed alone: explored
+    # with the parameter bound to its own default
+    a_ = rs.node.args
+    pnames = [q.arg for q in a_.args]
+    dflt = dict(zip(pnames[len(pnames) - len(a_.defaults) :], a_.defaults))
+    dflt.update({q.arg: d for q, d in zip(a_.kwonlyargs, a_.kw_defaults) if d is not None})
+    sp = next((q for q in rs.param_names()[1:]), None)
+    if sp is None or sp not in dflt:
+        res.violation("C16.R2", rs, rs.node, "reseed cannot be called without a seed any more: the reader's re-seeding at the start of a pass fails or has to invent a seed", key_extra="reseed-needs-argument")
+    else:
+        changed = None
+        for p in _sx.Explorer(prog, inline=lambda caller, call_, callee: callee.module is caller.module and not callee.is_property).run(rs, {sp: dflt[sp]}):
+            if p.outcome == "raise":
+                continue
+            for ev in p.events:
+                if ev.kind == "store" and isinstance(ev.expr, ast.Attribute) and ev.expr.attr == "seed" and isinstance(ev.expr.value, ast.Name) and ev.expr.value.id == "self":
+                    if not (ev.value is not None and _sx.mentions(ev.value, lambda y: isinstance(y, ast.Attribute) and y.attr == "seed")):
+                        changed = ev
+        if changed is not None:
+            res.violation(
+                "C16.R2",
+                rs,
+                changed.node,
+                f"reseed() without argument stores {unparse(changed.value)[:40] if changed.value is not None else '?'} as the seed (default of `{sp}` is {unparse(dflt[sp])}): every pass of a reader over a generator created with another seed silently continues with this one — catalogs of different seeds are identical",
+                key_extra="reseed-default-overwrites-seed",
+            )
+        else:
+            res.ok("C16.R2", res.site(rs, "argument-less"), f"reseed() with {sp} left at its default ({unparse(dflt[sp])}) keeps the stored seed")
     init = base.methods["__init__"]
     if any(isinstance(c.func, ast.Attribute) and c.func.attr == "reseed" for c in calls_in(init)):
         res.ok("C16.R2", res.site(init), "generator is seeded at construction")
